@@ -608,7 +608,14 @@ def run(tier, seed):
     fnp = []
     for f in fns:
         fnp += [(f,), (N(3), f), (N(3), f, E(",")), (N(3), N(4), f, E("…")), (N(3), f, E("₴")), (N(2), ("for", None, (N(3), f, E(","))))]
-    pf = list(pf) + rng + fnp
+    # a lazy value that has been looked at through a second reference (so its memo is partial) and is then printed
+    sources = [(N(k), E("ɾ")) for k in (4, 2, 1, 0)] + [(N(3), ("map", (E("›"),))), (N(3), E("ɾ"), ("mod", "v", (E("d"),)))]
+    observers = [(), (E(":"), E("h"), E("_")), (E(":"), E("$"), E("h"), E("_")), (E(":"), ("if", ((N(1),), (N(2),))), E("_")),
+                 (E("£"), E("¥"), E("h"), E("_"), E("¥")), (("set", "a"), ("get", "a"), E("h"), E("_"), ("get", "a")),
+                 (E(":"), E("L"), E("_")), (E(":"), E("t"), E("_")), (E(":"), E("h"), E("_"), E(":"), E("t"), E("_"))]
+    printers = [(), (E(","),), (E("…"),), (E("…"), E("h")), (E("₴"),), (E("w"),), (N(7), E('"'))]
+    lzp = [s_ + o + pr for s_ in sources for o in observers for pr in printers]
+    pf = list(pf) + rng + fnp + lzp
     explore.pmap(_flag_shard, [(c, ["none", "2,5"]) for c in explore.chunks(pf, 128)], rep, seed)
     b = rep.sections.get("bfs", {})
     rep.extra.update({
